@@ -106,6 +106,16 @@ Theorem C11_sparse_eq_dense : forall n chunk fs (px : list pixel) b i,
 Proof. exact margf_gw_is_rowsum. Qed.
 Print Assumptions C11_sparse_eq_dense.
 
+(** cis-only mode reads, per chromosome [lo,hi), only the pixel range [bin1_offset lo, bin1_offset hi): for the
+    chromosome's own bins this gives the same sums as reading the whole table (pixels sorted by bin1, cis filter on) *)
+Theorem C11_cis_range_suffices : forall o chroms (n : nat) lo hi v (px : list pixel) i,
+  o_cis o = true -> BlockSep chroms n lo hi -> good_px n px = true -> rows_sorted px ->
+  lo <= hi -> lo <= i < hi ->
+  (sumQ (map (pcontrib i (base_filters o chroms ++ [f_times v])) (slice px (bin1_offset px lo) (bin1_offset px hi)))
+   == sumQ (map (pcontrib i (base_filters o chroms ++ [f_times v])) px))%Q.
+Proof. exact cis_range_suffices. Qed.
+Print Assumptions C11_cis_range_suffices.
+
 (** no state leaks between chunks: the per-chunk pipeline is a per-pixel map of the chunk *)
 Theorem C11_pipeline_local : forall fs (c1 c2 : list pixel),
   pipe fs (init (c1 ++ c2)) = pipe fs (init c1) ++ pipe fs (init c2).
